@@ -43,7 +43,8 @@ let () =
   let ic = open_in file in
   let ncases = ref 0 and nruns = ref 0 and nties = ref 0 and npolls = ref 0
   and nskip = ref 0 and nimpure = ref 0 and nmiss = ref 0 and ncmp = ref 0
-  and nspec = ref 0 and nspecbad = ref 0 in
+  and nspec = ref 0 and nspecbad = ref 0 and ndistinct = ref 0 in
+  let seen : (string, unit) Hashtbl.t = Hashtbl.create 4096 in
   (try
      while true do
        let line = input_line ic in
@@ -77,6 +78,20 @@ let () =
                 | None -> missed := true; false in
               let lib = mk_lib (ctx_fixed tzoff now_sec) re members_in_order in
               let pure = (match field "pure" rest with [A b] -> b = "true" | _ -> true) in
+              (* distinct and non-trivial: new inputs whose evaluation polled the context at least
+                 twice (went beyond the first step) or returned a classified error *)
+              let key = Digest.string (String.concat "\000" [text; Sexp.to_string (L (field "doc" rest)); Sexp.to_string (L (field "vars" rest));
+                                                             Sexp.to_string (L (field "usetz" rest)); Sexp.to_string (L (field "tz" rest))]) in
+              if not (Hashtbl.mem seen key) then begin
+                Hashtbl.add seen key ();
+                let nontrivial = List.exists (function
+                    | L (A "run" :: _ :: _ :: _ :: entries) ->
+                      List.exists (function
+                          | L [A "query"; r; A n] -> int_of_string n >= 2 || (match r with L (A "err" :: _) -> true | _ -> false)
+                          | _ -> false) entries
+                    | _ -> false) (field "runs" rest) in
+                if nontrivial then incr ndistinct
+              end;
               if not pure then begin incr nimpure; Printf.printf "IMPURE %s %s text=%s\n" id family (qs text) end;
               List.iter (function
                   | L (A "run" :: A silent :: A k :: A _cause :: entries) ->
@@ -163,5 +178,6 @@ let () =
        end
      done
    with End_of_file -> ());
+  Printf.printf "STAT distinct_nontrivial n=%d\n" !ndistinct;
   Printf.printf "SUMMARY cases=%d runs=%d comparisons=%d ties=%d polls=%d impure=%d skipped=%d oracle_miss=%d spec_comparisons=%d spec_mismatches=%d\n"
     !ncases !nruns !ncmp !nties !npolls !nimpure !nskip !nmiss !nspec !nspecbad
